@@ -53,7 +53,7 @@ RULE = ("case = (event|tick|exception spec, route); distinct = hash of (class, v
 REQUIRED_REACH = ["event_roundtrip_eval", "typed_fields_eval", "dynamic_fields_eval", "stop_result_eval", "nested_model_eval",
                   "stop_subclass_eval", "route_json_eval", "route_envelope_eval", "route_tick_eval", "tick_kind_eval",
                   "tick_step_result_eval", "tick_add_waiter_eval", "exception_roundtrip_eval", "exception_in_tick_eval",
-                  "nested_event_eval"]
+                  "nested_event_eval", "redefined_class_eval", "redefined_exception_class_eval"]
 ASSUMPTIONS = ["payloads are JSON-representable: None/bool/int/finite float/str/list/dict with str keys",
                "event classes are defined at module level (qualified name = module.ClassName)",
                "AddWaiter.requirements are dropped by design (has_requirements flag) and are not compared"]
@@ -817,8 +817,69 @@ PRELUDE = (
 )
 
 
+def redefined_class_case(env, case, acc):
+    """Event / exception classes that are (re)defined while the process lives -- a module reloaded, a notebook cell run again:
+    the qualified name stays, the class object (and possibly its typed fields) is new.  Reading back what was written with the
+    CURRENT class must yield the current class, generation after generation."""
+    import sys
+    import types
+
+    we = env.we
+    modname = "vf_c18_live"
+    mod = sys.modules.get(modname)
+    if mod is None:
+        mod = types.ModuleType(modname)
+        sys.modules[modname] = mod
+    for gen in range(case["generations"]):
+        ann = {"a": int}
+        ns = {"__module__": modname}
+        if gen % 2 == 1:
+            ann["b"] = str       # a typed field only this generation declares
+            ns["b"] = "dflt"
+        ns["__annotations__"] = ann
+        base = we.StopEvent if case["base"] == "stop" else we.Event
+        cls = type("LiveEv", (base,), dict(ns))
+        exc_cls = type("LiveErr", (Exception,), {"__module__": modname})
+        mod.LiveEv, mod.LiveErr = cls, exc_cls
+        kw = {"a": gen, "dyn": [gen, "x"]}
+        if "b" in ann:
+            kw["b"] = f"typed{gen}"
+        orig = cls(**kw)
+        for route in ("json", "env_meta_qn", "tick_persisted"):
+            dump, load = env.route(route)
+            acc.hit("redefined_class_eval")
+            try:
+                got = load(dump(orig))
+            except Exception as x:  # noqa: BLE001
+                acc.violation({"mech": "event_roundtrip_raises", "stage": "redefined_class", "exc": type(x).__name__},
+                              f"[{route}] generation {gen} of {modname}.LiveEv: round trip raised {type(x).__name__}: {str(x)[:300]}", {**case, "route": route})
+                return
+            diffs = []
+            event_diff(env, orig, got, acc, diffs)
+            if diffs:
+                acc.violation({"mech": "event_roundtrip_mismatch", "aspect": diffs[0][0], "redefined_class": True},
+                              f"[{route}] generation {gen} of {modname}.LiveEv (class redefined under the same qualified name): {diffs[0][1]}"[:600], {**case, "route": route})
+                return
+        # the exception class, carried by a failure event
+        dump, load = env.tick_route("tick_persisted")
+        t = env.tk.TickStepResult(step_name="s", worker_id=0, event=orig, result=[env.res.StepWorkerFailed(exception=exc_cls(f"g{gen}"), failed_at=1.0)])
+        try:
+            back = load(dump(t))
+            bexc = back.result[0].exception
+            acc.hit("redefined_exception_class_eval")
+            if type(bexc) is not exc_cls or str(bexc) != f"g{gen}":
+                acc.violation({"mech": "exception_roundtrip_mismatch", "redefined_class": True},
+                              f"[tick_persisted] generation {gen}: {modname}.LiveErr came back as {type(bexc).__module__}.{type(bexc).__name__} (is current class: {type(bexc) is exc_cls}) {bexc!r}", case)
+                return
+        except Exception as x:  # noqa: BLE001
+            acc.violation({"mech": "tick_roundtrip_raises", "stage": "redefined_class", "exc": type(x).__name__}, f"generation {gen}: {type(x).__name__}: {str(x)[:300]}", case)
+            return
+
+
 def run_case(env, case, acc):
     k = case["kind"]
+    if k == "redefined":
+        return redefined_class_case(env, case, acc)
     if k == "event":
         check_event_case(env, case, acc)
     elif k == "tick":
@@ -832,6 +893,9 @@ def run_shard(shard):
     acc = Acc()
     rnd = random.Random(shard["seed"])
     model_in_result_note(env, acc, rnd)
+    for base in ("event", "stop"):
+        acc.case()
+        run_case(env, {"kind": "redefined", "base": base, "generations": 3}, acc)
     if shard.get("part") == 0:
         # small fixed cases first, so that the first witness of a signature is a minimal one
         for case in PRELUDE:
